@@ -1,6 +1,6 @@
 // Package c08 checks property C08 — "Every reported position is real, points at the culprit and
 // can be rendered" (DESIGN.md §3 C08, Appendix I) — by a span monitor applied to every syntax
-// error, diagnostic, interrupt span and caught-error position produced by three workloads.
+// error, diagnostic, interrupt span and caught-error position produced by four workloads.
 package c08
 
 import (
@@ -32,6 +32,9 @@ func (c08) Info(tier string) fw.Info {
 			"(3) runtime failures of accepted programs at known positions (throw, division by zero, negative shift, index out of bounds, unwrap of none, failing cast, assert, JSON errors, cancellation, limits) in main, in called functions, in multi-line constructs and in imported modules, on both backends, " +
 			"plus runtime type validation of host-provided any values (annotated let and `as`; the type written inline, through a local alias, an alias chain, an alias nested in a list/option/object type, an imported alias or a singleton type; values from parse_json, any_func, any_list, any-object members - sampled from the product), " +
 			"observing the fatal interrupt span and the line/column/filename of the error object a catch block prints; for throws the reported span is also compared with the compiled program's source-map entries of the Throw instruction and of the instruction after it. " +
+			"(4) cancellation sweeps: a program is run once under a context that counts the polls of the run and then once per poll k (all polls up to a cap, beyond it a stratified sample) under a context that is cancelled exactly at poll k, on the interpreter (polls before every statement, expression and block: the termination interrupt carries the span of the AST node about to run, incl. the synthetic block of an else-if) and on the VM (polls between instruction slices, after the initialisation code: span = source-map entry); " +
+			"every termination (or other) interrupt span is monitored and rendered with diagnostic.Diagnostic.Display as the hosts do; programs: if / else-if / else chains and matches (1-3 conditional arms, with/without final else, every arm taken, as statement / value / value with statements / function tail / return value / call argument / operand, inside while, loop, for, closure, match arm, try and catch, nested in an else arm), " +
+			"loops with break/continue, try/catch, blocks, closures, recursion, early returns, list/object/option/string/cast/operator/assignment expressions - in main, callee, nested loop and imported module under the layout variants - plus seeded random nestings of these shapes and programs of the typed generator. " +
 			"non-trivial = at least one position was produced and monitored in the case; distinct = distinct (kind, payload)",
 		Assumptions: []string{
 			"containment is asserted only where the generator knows the culprit (templates) or where the reference lexer fixes the token positions",
@@ -48,7 +51,23 @@ func (c08) Cases(tier string, seed uint64) []fw.Case {
 	cases = append(cases, syntaxCases(tier, seed)...)
 	cases = append(cases, diagCases(tier, seed)...)
 	cases = append(cases, runtimeCases(tier, seed)...)
-	return cases
+	// the sweep cases are wall-clock heavy (many short VM runs, each waits for its cores): spread them
+	// evenly over the worker batches instead of leaving them to the last two workers
+	return interleave(cases, sweepCases(tier, seed))
+}
+
+// interleave merges b into a at even distances (order inside a and b is kept).
+func interleave(a, b []fw.Case) []fw.Case {
+	out := make([]fw.Case, 0, len(a)+len(b))
+	j := 0
+	for i, c := range a {
+		for j < len(b) && j*len(a) <= i*len(b) {
+			out = append(out, b[j])
+			j++
+		}
+		out = append(out, c)
+	}
+	return append(out, b[j:]...)
 }
 
 func (c08) Run(c fw.Case) (res fw.Result) {
@@ -64,6 +83,8 @@ func (c08) Run(c fw.Case) (res fw.Result) {
 		return runDiag(c)
 	case "runtime":
 		return runRuntime(c)
+	case "sweep":
+		return runSweep(c)
 	}
 	return fw.Result{Verdict: fw.Inconclusive, Why: "unknown case kind " + c.Kind}
 }
@@ -85,7 +106,7 @@ func (c08) Finalize(tier string, results []fw.Result, coverage map[string]any) s
 			tot[k] += v
 		}
 	}
-	for _, k := range []string{"spans", "renders", "syntax_errors", "diagnostics", "known_culprit_checks", "vm_fatal_spans", "tree_fatal_spans", "caught_positions"} {
+	for _, k := range []string{"spans", "renders", "syntax_errors", "diagnostics", "known_culprit_checks", "vm_fatal_spans", "tree_fatal_spans", "caught_positions", "sweep_tree_termination_spans", "sweep_vm_termination_spans"} {
 		if len(results) > 50 && tot[k] == 0 {
 			return "observation channel " + k + " stayed empty"
 		}
